@@ -1,10 +1,12 @@
 /- ymdriver: executable side of the models (trace validators / model runners). No Mathlib. -/
 import Driver.Atomic
+import Driver.Unique
 
 def main (args : List String) : IO UInt32 := do
   match args with
   | ["atomic"] => Yaclib.Driver.Atomic.main false; return 0
   | ["atomic-spec"] => Yaclib.Driver.Atomic.main true; return 0
+  | ["validate", "unique"] => Yaclib.Driver.validate Yaclib.Driver.UniqueD.model
   | _ =>
     IO.eprintln "usage: ymdriver <model> …"
     return 2
